@@ -171,6 +171,15 @@ func runC09(r *ev.Run) {
 	// stalemate cage family: a king with no move of its own, one pawn beside a pawn that has just double-pushed,
 	// one enemy slider anywhere, the enemy king anywhere: the pawn's moves (push, capture, en passant) decide
 	r.Set("stalemate_cage_family", c09StaleCageFamily(r, handle))
+	// paralysis family: the same immobile king, one own man of any kind anywhere, one enemy man of any kind anywhere,
+	// the enemy king anywhere: whether the position is stalemate depends on that one man being pinned, blocked or free
+	r.Set("paralysis_family", c09ParalysisFamily(r, handle))
+	// the en-passant bearing positions of KPkp (a checking pawn captured en passant, pinned capturers)
+	forClasses(r, parseClasses([]string{"KPkp", "KPPk", "Kkpp"}), universe.Opts{OnlySpecial: true, NoRights: true}, func() *worker { return &worker{} }, func(w *worker, p *refchess.Pos) {
+		if p.Ep >= 0 && p.EPCapturable() {
+			handle(w.ld.Load(p), p)
+		}
+	})
 	// corner interposition family: a cornered king checked along the edge file, own men on the neighbouring
 	// squares (possibly pinned along the long diagonal), one more own piece anywhere: captures and interpositions
 	r.Set("corner_interposition_family", c09CornerFamily(r, handle))
@@ -487,6 +496,65 @@ func c09CornerFamily(r *ev.Run, handle func(b *board.Board, p *refchess.Pos)) in
 				}
 			}
 			p.Sq[9] = 0
+		}
+	})
+	return n.Load() * 2
+}
+
+
+// c09ParalysisFamily: Black king h8, own pawn h7, white pawn h6, white knight e7 (the king cannot move); one black
+// man X of any kind on any square, one white man Y of any kind on any square, the white king on any square; Black
+// to move and not in check. Mirrored for White.
+func c09ParalysisFamily(r *ev.Run, handle func(b *board.Board, p *refchess.Pos)) int64 {
+	var n atomic.Int64
+	kinds := []int8{refchess.Pawn, refchess.Knight, refchess.Bishop, refchess.Rook, refchess.Queen}
+	ev.Parallel(64, func(wk, xs int) {
+		if r.Expired() {
+			return
+		}
+		var ld eng.Loader
+		var p refchess.Pos
+		p.Ep = -1
+		p.Full = 1
+		p.Stm = refchess.Black
+		p.Sq[63] = -refchess.King
+		p.Sq[55] = -refchess.Pawn
+		p.Sq[47] = refchess.Pawn
+		p.Sq[52] = refchess.Knight
+		if p.Sq[xs] != 0 {
+			return
+		}
+		for _, x := range kinds {
+			if x == refchess.Pawn && (xs < 8 || xs >= 56) {
+				continue
+			}
+			p.Sq[xs] = -x
+			for ys := 0; ys < 64; ys++ {
+				if p.Sq[ys] != 0 {
+					continue
+				}
+				for _, y := range kinds {
+					if y == refchess.Pawn && (ys < 8 || ys >= 56) {
+						continue
+					}
+					p.Sq[ys] = y
+					for ks := 0; ks < 64; ks++ {
+						if p.Sq[ks] != 0 {
+							continue
+						}
+						p.Sq[ks] = refchess.King
+						if p.Valid() && !p.InCheck(refchess.Black) {
+							n.Add(1)
+							handle(ld.Load(&p), &p)
+							m := p.Mirror()
+							handle(ld.Load(&m), &m)
+						}
+						p.Sq[ks] = 0
+					}
+					p.Sq[ys] = 0
+				}
+			}
+			p.Sq[xs] = 0
 		}
 	})
 	return n.Load() * 2
